@@ -10,7 +10,7 @@
 (*                  objects; deps and result kinds are per class)                          *)
 (*       atoms[a] = [ec, h]  ec  equality class (python ==/hash: 1, 1.0 and True are one   *)
 (*                               class - "twins"),  h  1 iff hashable                      *)
-(*       meths[m] = [params, sps, deps]                                                   *)
+(*       meths[m] = [params, sps]                                                         *)
 (*            params[j].d   default atom of the j-th parameter (0 = required)             *)
 (*            sps[s]        a SPELLING of a call: pos (atoms passed positionally), kw     *)
 (*                          (sequence of [n, a]: parameter number n passed by keyword, in *)
@@ -18,10 +18,10 @@
 (*                          top (1 = explored as a top-level call), k[c] = what the       *)
 (*                          undecorated function does for these arguments on class c:     *)
 (*                          "val" a fresh object | "none" None | "zero" a falsy value |   *)
-(*                          "raise" raises                                                *)
-(*            deps[c]       what the undecorated function itself does before returning:   *)
-(*                          a sequence of [t, m, s] - calls of other cached methods /     *)
-(*                          reads of cached properties of the same object                 *)
+(*                          "raise" raises;  deps[c] = what the undecorated function      *)
+(*                          itself does for these arguments before returning: a sequence  *)
+(*                          of [t, m, s] - calls of other cached methods / reads of       *)
+(*                          cached properties of the same object                          *)
 (*       props[p] = [k[c], deps[c], top]  (top: 1 = read at top level, 2 = also written    *)
 (*                          and deleted at top level)                                     *)
 (*       NO objects can exist, N0 exist initially, L = number of top-level operations     *)
@@ -86,7 +86,7 @@ Plain(k) == [k |-> k, o |-> 0, f |-> 0, b |-> <<>>]
 Cls(w, o) == w.cls[o]
 MKind(w, o, m, s) == w.meths[m].sps[s].k[Cls(w, o)]
 PKind(w, o, p) == w.props[p].k[Cls(w, o)]
-MDeps(w, o, m) == w.meths[m].deps[Cls(w, o)]
+MDeps(w, o, m, s) == w.meths[m].sps[s].deps[Cls(w, o)]
 PDeps(w, o, p) == w.props[p].deps[Cls(w, o)]
 MVal(w, o, m, s, b) == IF MKind(w, o, m, s) = "val" THEN [k |-> "val", o |-> o, f |-> m, b |-> b] ELSE Plain(MKind(w, o, m, s))
 PVal(w, o, p) == IF PKind(w, o, p) = "val" THEN [k |-> "val", o |-> o, f |-> 0 - p, b |-> <<>>] ELSE Plain(PKind(w, o, p))
@@ -128,7 +128,7 @@ UOp(w, o, t, m, s) ==
   IF t = "call"
   THEN LET bd == Bind(w, m, Sp(w, m, s)) IN
        IF ~bd.ok THEN UErr("Bind")
-       ELSE LET d == UDeps(w, o, MDeps(w, o, m), 1) IN
+       ELSE LET d == UDeps(w, o, MDeps(w, o, m, s), 1) IN
             IF d # "" THEN UErr(d)
             ELSE IF MKind(w, o, m, s) = "raise" THEN UErr("Raise") ELSE UOk(MVal(w, o, m, s, bd.b))
   ELSE LET d == UDeps(w, o, PDeps(w, o, m), 1) IN
@@ -141,7 +141,7 @@ UDeps(w, o, deps, i) ==
 \* does the operation (or something it calls) pass an unhashable argument to a decorated method
 RECURSIVE Unh(_, _, _, _, _), UnhDeps(_, _, _, _)
 Unh(w, o, t, m, s) ==
-  IF t = "call" THEN ~HashableSp(w, Sp(w, m, s)) \/ UnhDeps(w, o, MDeps(w, o, m), 1)
+  IF t = "call" THEN ~HashableSp(w, Sp(w, m, s)) \/ UnhDeps(w, o, MDeps(w, o, m, s), 1)
   ELSE UnhDeps(w, o, PDeps(w, o, m), 1)
 UnhDeps(w, o, deps, i) == i <= Len(deps) /\ (Unh(w, o, deps[i].t, deps[i].m, deps[i].s) \/ UnhDeps(w, o, deps, i + 1))
 
@@ -263,7 +263,7 @@ MEnter ==
   /\ last' = [last EXCEPT !.du[Top.m] = @ + 1]
   /\ UNCHANGED <<nobj, cache, pv>>
 \* the body calls the next decorated function it depends on (same object)
-TopDeps == IF Top.t = "call" THEN MDeps(W, Top.o, Top.m) ELSE PDeps(W, Top.o, Top.m)
+TopDeps == IF Top.t = "call" THEN MDeps(W, Top.o, Top.m, Top.s) ELSE PDeps(W, Top.o, Top.m)
 DepCall ==
   /\ stack # <<>> /\ Top.pc = "deps"
   /\ Top.di <= Len(TopDeps)
@@ -345,7 +345,7 @@ Spec == Init /\ [][Next]_vars
 Quiet == stack = <<>>
 TypeOK ==
   /\ nobj \in 1..W.NO
-  /\ Len(stack) <= 6
+  /\ Len(stack) <= 16
   /\ \A i \in 1..Len(stack) : stack[i].o \in 1..nobj
   /\ last.st \in {"ok", "err", "run"}
   /\ (Quiet => last.st # "run") /\ (~Quiet => last.st = "run")
